@@ -43,6 +43,19 @@ ELEMENT_ONLY = frozenset(("builtins.map", "builtins.filter", "itertools.filterfa
 KEYS_LIKE = frozenset(("keys", "items"))
 
 
+def _identity_key(k):
+    """`key=None` / `key=lambda x: x`: ordering by the element itself (total on the str / tuple elements used here)"""
+    if isinstance(k, ast.Constant) and k.value is None:
+        return True
+    if isinstance(k, ast.Lambda) and len(k.args.args) == 1 and isinstance(k.body, ast.Name) and k.body.id == k.args.args[0].arg:
+        return True
+    # {"post": 0, "get": 1, ...}.__getitem__ with pairwise distinct constant ranks is injective (KeyError elsewhere)
+    if isinstance(k, ast.Attribute) and k.attr == "__getitem__" and isinstance(k.value, ast.Dict):
+        vals = [v.value if isinstance(v, ast.Constant) else None for v in k.value.values]
+        return None not in vals and len(set(vals)) == len(vals)
+    return False
+
+
 class Scope(object):
     """a function or module scope"""
 
@@ -221,6 +234,11 @@ class SetOrder(object):
             if callee in SET_CTORS:
                 return "set"
             if callee == "builtins.sorted":
+                # sorted() is stable: with a key that is not injective (str.casefold, len, attrgetter...)
+                # equal-keyed elements keep their input order, i.e. the hash order of the set
+                key = [k.value for k in e.keywords if k.arg == "key"]
+                if key and not _identity_key(key[0]) and e.args and self.kind(sc, e.args[0], depth) is not None:
+                    return "ord"
                 return None
             if callee in PROPAGATORS:
                 args = e.args[1:] if callee in ELEMENT_ONLY else e.args
@@ -452,6 +470,8 @@ class SetOrder(object):
         callee = idx.callee(sc.mod, call, sc.func)
         if self.kind(sc, call) is not None and not (callee in ELEMENT_ONLY and call.args and call.args[0] is e):
             return None
+        if callee in ("builtins.min", "builtins.max") and any(kw.arg == "key" and not _identity_key(kw.value) for kw in call.keywords):
+            return "{}(..., key=...) over hash-ordered elements: ties are resolved by iteration order".format(callee.rpartition(".")[2])
         if callee in FREE_CALLEES or callee in SET_CTORS:
             return None
         if callee in ELEMENT_ONLY and call.args and call.args[0] is e:
